@@ -66,8 +66,8 @@ func (c *Ctx) pathsInline(rule string, fn *ssa.Function, inline map[*ssa.Functio
 		return nil
 	}
 	var ps []*pathx.Path
-	st, err := pathx.Enumerate(fn, pathx.Config{Loads: true, InlineLoops: true, Inline: func(_, callee *ssa.Function) bool {
-		return inline[callee] && !pathx.HasLoop(callee) || c.isNewHelper(callee)
+	st, err := pathx.Enumerate(fn, pathx.Config{Loads: true, InlineLoops: true, Inline: func(caller, callee *ssa.Function) bool {
+		return inline[callee] && !pathx.HasLoop(callee) || c.expandInPlace(caller, callee)
 	}}, func(p *pathx.Path) { ps = append(ps, p) })
 	if err != nil {
 		c.S.Unknown(rule, rule+"|paths|"+load.FuncName(fn), c.P.Pos(fn.Pos()), load.FuncName(fn), "path enumeration failed: "+err.Error())
